@@ -249,7 +249,17 @@ func (b *Batch) CaseSeed(i int) int64 {
 	return int64(mix64(uint64(b.Seed)*0x9E3779B97F4A7C15 ^ uint64(b.Index+1)*0xC2B2AE3D27D4EB4F ^ uint64(i+1)*0x165667B19E3779F9 ^ hashStr(b.ID)))
 }
 
-func (b *Batch) Skip(i int) bool { return b.Only >= 0 && i != b.Only }
+// Skip reports whether case i is not to be run: another case is being replayed, or the batch already holds plenty of
+// violations (the verdict is settled; on a badly broken tree every further case may cost a watchdog period).
+func (b *Batch) Skip(i int) bool {
+	if b.Only >= 0 {
+		return i != b.Only
+	}
+	b.R.mu.Lock()
+	many := b.R.NViol >= 12
+	b.R.mu.Unlock()
+	return many
+}
 
 func (b *Batch) Thorough() bool { return b.Tier == "thorough" }
 
